@@ -576,7 +576,11 @@ aiff_read_header (SF_PRIVATE *psf, COMM_CHUNK *comm_fmt)
 					found_chunk |= HAVE_SSND ;
 
 					if (! psf->sf.seekable)
+					{	/* Cannot seek to the first sample later on : read past the bytes the offset field says to skip. */
+						if (ssnd_fmt.offset > 0)
+							psf_binheader_readf (psf, "j", (size_t) ssnd_fmt.offset) ;
 						break ;
+						} ;
 
 					/* Seek to end of SSND chunk. */
 					psf_fseek (psf, psf->dataoffset + psf->datalength, SEEK_SET) ;
